@@ -26,6 +26,9 @@ def draw_cfg(rng, cname, N):
         c['window'] = str(rng.choice(['hamming', 'hann', 'rectangular'])); c['lag'] = int(rng.integers(2, max(3, N // 3)))
     elif cname in ('pburg', 'pyule', 'pcovar', 'pmodcovar'):
         c['order'] = int(rng.integers(1, 5))
+        if cname == 'pburg' and rng.integers(0, 3) == 0:
+            # an order-selection criterion with a generous maximum order: the criterion, not the maximum, decides
+            c['criteria'] = str(rng.choice(['AIC', 'MDL', 'FPE', 'AICc', 'KIC', 'AKICc'])); c['order'] = int(rng.integers(6, max(7, min(14, N // 3))))
         if cname == 'pyule':
             c['norm'] = str(rng.choice(['biased', 'unbiased']))
     elif cname == 'parma':
@@ -54,7 +57,7 @@ def make(cname, data, cfg, sampling, NFFT, sbf):
     if cname == 'pcorrelogram':
         return S.pcorrelogram(data, lag=cfg['lag'], window=cfg['window'], **kw)
     if cname == 'pburg':
-        return S.pburg(data, cfg['order'], **kw)
+        return S.pburg(data, cfg['order'], criteria=cfg.get('criteria'), **kw)
     if cname == 'pyule':
         return S.pyule(data, cfg['order'], norm=cfg['norm'], **kw)
     if cname == 'pcovar':
@@ -87,7 +90,7 @@ def functional_spectrum(cname, data, cfg, NFFT):
     if cname == 'pcorrelogram':
         return np.asarray(S.CORRELOGRAMPSD(data, None, lag=cfg['lag'], window=cfg['window'], NFFT=NFFT))
     if cname == 'pburg':
-        ar, rho, _ = S.arburg(data, cfg['order'], None)
+        ar, rho, _ = S.arburg(data, cfg['order'], cfg.get('criteria'))
         return arma2psd(A=ar, B=None, rho=rho, T=1., NFFT=NFFT)
     if cname == 'pyule':
         ar, rho, _ = S.aryule(data, cfg['order'], norm=cfg['norm'])
